@@ -544,6 +544,8 @@ class MinimalDSeparator(Contract):
     def on_raise(self, ex, st, args, old, exc):
         return graph_unchanged(args["self"], old)
 
+    post_reads_locals = True
+
     def an_E(self, ex, old, args):
         s, e = args["start"].z, args["end"].z
         A = anc_spec(ex, old["@E"], z3.Store(z3.Store(empty_set(Atom), s, True), e, True))
@@ -564,7 +566,10 @@ class MinimalDSeparator(Contract):
             return {"frame": graph_unchanged(args["self"], old)}
         if not isinstance(result, Coll):
             return z3.BoolVal(False)
+        # sep_ok speaks about the graph held by the local `an_graph`; the second clause pins that local to the specification
+        # (the sub-graph induced by the ancestors of {start, end} in the pre-state), so the two together do not depend on the local
         return {"no-latent-no-endpoint-and-separates": self.sep_ok(ex, st, args, old, mem_or_empty(result)),
+                "separates-in-the-ancestral-graph-of-the-spec": self.an_ok(ex, st, args, old),
                 "frame": graph_unchanged(args["self"], old)}
 
     # loop 0: while separator contains latents ; loop 1: for u in separator (replace latent by its parents); loop 2: minimisation
